@@ -455,8 +455,13 @@ def run(ctx, col: Collector):
             return
         # --- the type text compared AS WRITTEN with spellings built from each enum (`self.type in (e.name, f'{e.schema}.{e.name}')`, an index keyed by such a
         # spelling).  What must hold: an enum of the default schema answers to `name` and to `<default>.name`, any other enum only to `schema.name`.
+        n_stores = {}
+        for x_ in ast.walk(cb.node):
+            if isinstance(x_, ast.Name) and isinstance(x_.ctx, ast.Store):
+                n_stores[x_.id] = n_stores.get(x_.id, 0) + 1
+        # (a local that is `self.type` on one branch and a part of it on another is not the text as written)
         raw = {'self.type'} | {norm(a.targets[0]) for a in ast.walk(cb.node) if isinstance(a, ast.Assign) and len(a.targets) == 1 and isinstance(a.targets[0], ast.Name)
-                               and norm(a.value) == 'self.type'}
+                               and norm(a.value) == 'self.type' and n_stores.get(a.targets[0].id, 0) == 1}
         enum_vars = {norm(n.target) for n in ast.walk(cb.node) if isinstance(n, (ast.For, ast.comprehension)) and norm(n.iter).endswith('.enums') and isinstance(n.target, ast.Name)}
 
         def spelling(k: ast.AST, ev_: str, public: bool):
